@@ -152,7 +152,7 @@ class ClassWorld:
             if k == 'ec_flagwatch':
                 op['when'] = rng.choice(['exit', 'enter'])
             if k == 'kec':
-                op['mode'] = rng.choice(['plain', 'touch', 'touch', 'cset', 'cset', 'watch_enter', 'watch_exit'])
+                op['mode'] = rng.choice(['plain', 'touch', 'touch', 'cset', 'cset', 'cset_sub', 'cset_sub', 'watch_enter', 'watch_exit'])
             if k == 'new' or k == 'newk':
                 op['kw'] = [p for p in used if p not in ('r',) and rng.random() < 0.3]
             if k == 'addp_bad':
@@ -1059,6 +1059,11 @@ class _Run:
                             self.ensure_copy(i, 'k')
                         elif mode == 'cset':
                             self.do(dict(op, op='cset', p='k'))
+                        elif mode == 'cset_sub':
+                            # (an inheriting class is assigned the constant while the block is open on its base)
+                            subs = [c2 for c2 in range(nc) if c2 != ci and ci in self.mro[c2] and 'k' in self.visible(c2)]
+                            if subs:
+                                self.do(dict(op, op='cset', p='k', c=subs[op.get('i', 0) % len(subs)]))
                 except RuntimeError:
                     self.out.stats['fault.constant_flag_watcher_raised_in_class_block'] += 1
             finally:
